@@ -233,9 +233,9 @@ func runC18() int {
 	strided := func(f *wgen.Family, st int) *wgen.Family {
 		return &wgen.Family{Name: f.Name, Count: (f.Count + st - 1) / st, At: func(i int) *wgen.Case { return f.At(i * st) }}
 	}
-	fams := []*wgen.Family{strided(f1, stride), wgen.F2(2, false), wgen.F2L(2, false), wgen.F2Mini(4, 3), strided(wgen.F4c(false), cstride), wgen.F1lit()}
+	fams := []*wgen.Family{strided(f1, stride), wgen.F2(2, false), wgen.F2L(2, false), wgen.F2Mini(4, 3), wgen.F2Mini(3, 4), strided(wgen.F4c(false), cstride), wgen.F1lit()}
 	if r.Thorough() {
-		fams = append(fams, wgen.F2(4, true), wgen.F2L(3, true), wgen.F2LMini(4, 1), wgen.F2LMini(4, 2))
+		fams = append(fams, wgen.F2(4, true), wgen.F2L(3, true), wgen.F2LMini(4, 1), wgen.F2LMini(4, 2), wgen.F2Mini(4, 4))
 	}
 	texts := append(append([]wgen.Micro{}, wgen.Micros...), corpus()...)
 	forEachProgram(r, fams, texts, func(p *prog) { c18Program(r, p, p.Case == nil || r.Thorough(), st) })
